@@ -2,6 +2,30 @@
 the evidence texts (rule, assumptions)."""
 
 PLAN = {
+    "C01": {
+        "quick": [
+            {"kind": "rapid", "test": "TestC01Fmt", "checks": 40000},
+            {"kind": "rapid", "test": "TestC01Hist", "checks": 40000},
+            {"kind": "rapid", "test": "TestC01Join", "checks": 10000},
+        ],
+        "thorough": [
+            {"kind": "rapid", "test": "TestC01Fmt", "checks": 250000, "shards": 16},
+            {"kind": "rapid", "test": "TestC01Hist", "checks": 200000, "shards": 16},
+            {"kind": "rapid", "test": "TestC01Join", "checks": 50000, "shards": 16},
+        ],
+    },
+    "C03": {
+        "quick": [
+            {"kind": "rapid", "test": "TestC03Fmt", "checks": 40000},
+            {"kind": "rapid", "test": "TestC03Hist", "checks": 40000},
+            {"kind": "rapid", "test": "TestC03Join", "checks": 10000},
+        ],
+        "thorough": [
+            {"kind": "rapid", "test": "TestC03Fmt", "checks": 250000, "shards": 16},
+            {"kind": "rapid", "test": "TestC03Hist", "checks": 200000, "shards": 16},
+            {"kind": "rapid", "test": "TestC03Join", "checks": 50000, "shards": 16},
+        ],
+    },
     "C09": {
         "quick": [
             {"kind": "enum", "test": "TestEnumC09", "env": {"VERIF_BOUND": 3}, "timeout": 600},
@@ -47,6 +71,8 @@ PLAN = {
 }
 
 RULES = {
+    "C01": "rapid: (a) print cases = route (Sprint, Sprintf, Fprint, Fprintf, HelperForErrorf, StringBuilder.Print/Printf incl. RedactableBytes, Sprintfn Print/Printf) x format (65% structured directives with flags/width/precision/star/odd and non-ASCII verbs, 35% chaotic byte soup) x operands from the full value universe (plain kinds, containers, pointers, Stringer/error/Formatter/GoStringer/SafeFormatter/SafeMessager programs incl. panicking ones and formatters that discover the SafePrinter, Safe/Unsafe wrappers, library-produced RedactableString/Bytes, StringBuilders) x configuration (registered safe types, scripted error hook), payloads over the text or the byte alphabet (markers, single marker bytes, other lead bytes, FF); (b) writer-op histories of up to 12 ops in 12 contexts (StringBuilder, RedactableBytes, ManualBuffer with SetMode/raw fragments, Sprintfn, SafeFormat under a random directive / under Unsafe / under Safe / in a slice / in a struct, printing a StringBuilder, EscapeBytes); (c) Join/JoinTo over library-produced redactables. Oracle: well-formedness predicate on every output + escape invariance (replacing every marker in string payloads and literals by '?' must not change the output; only for %v/%s/%q directives and address-free outputs). Non-trivial = some payload, literal, panic message, map key or verb contains a marker or partial-marker byte (and the call did not end in a propagating panic). Distinct = distinct specs by 64-bit fingerprint.",
+    "C03": "rapid: the same three generators as C01 (print cases over all routes / value universe / configurations; writer histories in 12 contexts; Join/JoinTo), judged by line-safety (well-formed and no line feed inside an envelope), well-formedness of every line of strings.Split(out, LF), and equality of line-wise and whole-string Redact / StripMarkers (string and bytes variants). The alphabets contain LF and LF LF tokens so that about 40% of unsafe payloads carry line feeds at their start, end or next to markers. Non-trivial = an unsafe-side payload contains a line feed and the output contains one. Distinct = distinct specs by 64-bit fingerprint.",
     "C09": "enumeration: breadth-first over all sequences of up to 3 (quick) / 5 (thorough) ops drawn from 50 op instances (17 SafeWriter/io.Writer methods x payloads from {a, space, LF, start marker, e-acute, 'a LF start-marker', empty}), with exact de-duplication of the buffer's hidden state through the verif hook; every transition is judged against the segment model, every retained path is also run on ManualBuffer, Sprintfn and a SafeFormat method. rapid: histories of up to 40 ops over the text or byte alphabet, with SetMode/raw-fragment writes for the buffer routes and Print/Printf ops. Non-trivial = the history has ops of at least two classes (safe/unsafe/pre-redactable) or a payload containing a marker byte or a line feed. Distinct = distinct reached buffer states (enumeration) / distinct histories (rapid), by 64-bit fingerprint.",
     "C13": "enumeration: at every buffer state reachable by up to 2 (quick) / 3 (thorough) ops over the C09 op instances, each accessor (Len, Cap, String, RedactableString, RedactableBytes, GetMode), Reset, TakeRedactableString and TakeRedactableBytes is applied with and without spare capacity and followed by each of 4 suffix ops; rapid: histories of up to 25+10 ops with accessor calls inserted at random positions, an optional Reset/Take in the middle, an initial Grow of 0/1/3/7/64/100, on StringBuilder or ManualBuffer. Non-trivial = some accessor/Reset/Take ran while an envelope was open or unescaped bytes were pending (observed through the hook). Distinct = distinct specs by 64-bit fingerprint.",
     "C07": "enumeration: every string of up to 7 (quick) / 8 (thorough) tokens over {start marker, end marker, cross, LF, 'a', E2, 80, B9[, BA]} through Redact/StripMarkers (string and bytes variants, ToBytes/ToString), with the concatenation law at every token boundary; rapid: strings of up to 30 tokens over the byte alphabet with toggled envelopes (3/4 biased to well-formed) and pairs for the concatenation law. Non-trivial = the string contains at least one marker. Distinct = distinct input strings (64-bit FNV fingerprint).",
@@ -68,6 +94,18 @@ HOOK_COMMITS = ["cf350cc"]
 NOT_APPLICABLE = {}
 
 CLAIMS = {
+    "C01": {
+        "text": "Generated search over formats x operand trees x user programs x configurations and over writer histories in every context, with a validity predicate (markers strictly alternate) on every produced string plus a metamorphic relation (a marker inside data must behave exactly like a '?') that exposes forged-but-balanced envelopes. Exploration: 90k cases per quick run, 11M per thorough run; found F9 (ill-formed output after a panic propagating through a nested printer), now repaired.",
+        "design_ref": "DESIGN.md §4.1",
+        "note": "Trusted: WF predicate (harness/oracle.go). Calls that end in a propagating (nested) panic return nothing and are counted trivial; whether the panic is legitimate is C11's business. Escape invariance is restricted to %v/%s/%q without '+'/'#' and to outputs that do not print addresses or reflect script internals.",
+        "technique": "rapid property-based testing (structured + chaotic format generators, scripted user programs) with a validity predicate and a metamorphic escape-invariance relation",
+    },
+    "C03": {
+        "text": "Same generated universe as C01, judged by the line-safety predicate and by the property's own observation: every line of the split output is well-formed and line-wise Redact/StripMarkers equals the whole-string result. Exploration, weighted towards line feeds at payload boundaries, next to markers, padding, mode switches and partial UTF-8.",
+        "design_ref": "DESIGN.md §4.3",
+        "note": "Trusted: LS/WF predicates (harness/oracle.go); Redact/StripMarkers themselves are the subject of C07.",
+        "technique": "rapid property-based testing with a validity predicate (line-safety) and a split/join metamorphic law",
+    },
     "C09": {
         "text": "Every SafeWriter history up to the bound is explored breadth-first with exact state de-duplication (the buffer's hidden state is read through the verif hook, so a pruned path provably has the same future), and each transition is compared with a two-line segment model (stripped text = payloads in call order with markers replaced by '?'; text outside envelopes = safe payloads + line feeds of unsafe ones) plus the line-safety predicate; the four implementations (StringBuilder, ManualBuffer, Sprintfn printer, SafeFormat printer) must agree up to merging of envelopes. Long histories with hostile payloads are sampled with rapid. Exploration; exhaustive up to the stated history length.",
         "design_ref": "DESIGN.md §4.9",
